@@ -67,7 +67,7 @@ Proof.
   unfold hs_step. intros H. destruct (w_pc w); try discriminate.
   - inv_some0 H. reflexivity.
   - destruct (ps s); inv_some0 H; reflexivity.
-  - destruct (lookup (conn s) (bound s)); inv_some0 H; reflexivity.
+  - unfold hello_pres in H. destruct (w_rs w =? 0)%N; destruct (lookup (conn s) (bound s)); inv_some0 H; reflexivity.
   - destruct (inq s); [discriminate|]. inv_some0 H. reflexivity.
   - inv_some0 H. reflexivity.
   - destruct (is_hs (ps s)); inv_some0 H; [destruct (lrs s =? nrs)%N|]; reflexivity.
@@ -82,7 +82,8 @@ Qed.
 (* ------------------------------------------------------------------ the scenario *)
 Section OneAttempt.
   Variables (p0 : pst) (c0 stored0 lrs0 g0 : N) (ws0 : list worker) (e : bool) (cn0 : N)
-            (b0 : list (N * N)) (hsid : N) (ok : bool) (static : N) (dsids : list N).
+            (b0 : list (N * N)) (pc0 : ccfg) (pres0 : list pentry) (cfg : ccfg)
+            (hsid : N) (ok : bool) (static : N) (dsids : list N).
 
   Hypothesis Hp0 : p0 <> PHs.                            (* a disconnect/reset preceded: not mid-handshake *)
   Hypothesis Hws : Forall (old_ok g0) ws0.               (* earlier workers have all terminated *)
@@ -96,8 +97,15 @@ Section OneAttempt.
   Definition auth_ok := ok && negb ((stored0 =? 0)%N && (static =? 0)%N).
   Hypothesis Hfail : auth_ok = false -> dsids = [].      (* a server that failed authentication sends no frames *)
 
-  Definition S0 := start p0 c0 stored0 lrs0 g0 ws0 e cn0 b0 hello data.
+  Definition S0 := start p0 c0 stored0 lrs0 g0 ws0 e cn0 b0 pc0 pres0 cfg hello data.
   Definition tail := NSeg hello :: map NSeg data.
+
+  (* ---- what this attempt presents: the IK client hello (a key is stored) and/or the client finish
+     (the server hello carried a static: XX, XXfallback) carry exactly cfg on connection cn *)
+  Definition fin : bool := negb (static =? 0)%N || (stored0 =? 0)%N.
+  Definition hello_entry : list pentry := if (stored0 =? 0)%N then [] else [(cn, 1%N, cfg)].
+  Definition finish_entry : list pentry := if fin then [(cn, 2%N, cfg)] else [].
+  Definition presented_ok : list pentry := hello_entry ++ finish_entry.
 
   (* ---- functions of the worker's pc *)
   Definition taken (h : hpc) : list seg :=
@@ -149,11 +157,15 @@ Section OneAttempt.
     | HDone => if auth_ok then [] else [EEvent; EFailure]
     | _ => []
     end.
+  Definition after_finish (h : hpc) : bool :=
+    match h with HSetT _ | HPersist _ | HFlush _ => true | HDone => auth_ok | _ => false end.
+  Definition pres_of (h : hpc) : list pentry :=
+    (if wrote_hello h then hello_entry else []) ++ (if after_finish h then finish_entry else []).
   Definition changed : bool := negb (stored0 =? nrs)%N.
   Definition delivered (s : st) : list seg := map snd (ups (log s)).
 
   Record Inv2 (s : st) (h : hpc) (rest : list seg) : Prop := {
-    i_workers : workers s = mkW g0 stored0 h :: ws0;
+    i_workers : workers s = mkW g0 stored0 cfg h :: ws0;
     i_gen : gen s = (g0 + 1)%N;
     i_conn : conn s = cn;
     i_edge : edge s = e;
@@ -180,15 +192,17 @@ Section OneAttempt.
     i_failures : failures (log s) = fail_log h;
     i_early : wrote_hello h = false -> npc_ s = NNext /\ rest = hello :: data;
     i_nodeliv : in_transport h = false -> delivered s = [];
-    i_changed : forall n, h = HPersist n -> changed = true
+    i_changed : forall n, h = HPersist n -> changed = true;
+    i_pres : pres s = pres0 ++ pres_of h;
+    i_fin : forall n, h = HFinish n -> fin = true
   }.
 
   Inductive Inv (s : st) : Prop :=
-  | Inv_pre : forall n scr l c,
-      s = mkSt p0 [] None c0 stored0 l n scr ws0 g0 [] e c b0 ->
-      (n = NNext /\ scr = NAuth :: tail /\ l = lrs0 /\ c = cn0) \/
-      ((n = NAuthE2 \/ n = NAuthH) /\ scr = tail /\ l = lrs0 /\ c = cn) \/
-      ((n = NAuthChk \/ n = NSpawn) /\ scr = tail /\ l = stored0 /\ c = cn) ->
+  | Inv_pre : forall n scr l c pc,
+      s = mkSt p0 [] None c0 stored0 l n scr ws0 g0 [] e c b0 pc pres0 ->
+      (n = NNext /\ scr = NAuth cfg :: tail /\ l = lrs0 /\ c = cn0 /\ pc = pc0) \/
+      ((n = NAuthE2 \/ n = NAuthH) /\ scr = tail /\ l = lrs0 /\ c = cn /\ pc = cfg) \/
+      ((n = NAuthChk \/ n = NSpawn) /\ scr = tail /\ l = stored0 /\ c = cn /\ pc = cfg) ->
       Inv s
   | Inv_run : forall h rest, Inv2 s h rest -> Inv s.
 
@@ -222,7 +236,7 @@ Section OneAttempt.
 
   Ltac fields HI :=
     destruct HI as [Hw Hg Hcn He Hn Hnc Hb Hacct Hscr Hups Hctr Hps Hlk Hex Hntfl Hntit Hhsit Hlive
-                    Hcar Hokp Hfp Hrs Hper Hfl Hearly Hnod Hchg].
+                    Hcar Hokp Hfp Hrs Hper Hfl Hearly Hnod Hchg Hpres Hfin].
 
   Lemma data_nil_of_fail : auth_ok = false -> data = [].
   Proof. intros H. unfold data. rewrite (Hfail H). reflexivity. Qed.
@@ -342,7 +356,7 @@ Section OneAttempt.
 
 
   Lemma verify_spec b :
-    verify ((cn, g0) :: b) (mkW g0 stored0 HGet) hello =
+    verify ((cn, g0) :: b) (mkW g0 stored0 cfg HGet) hello =
       if auth_ok then Some (nrs, negb (static =? 0)%N || (stored0 =? 0)%N) else None.
   Proof.
     unfold verify, hello, mine, auth_ok, nrs, negotiated. rewrite lookup_head. cbn [w_att w_rs].
@@ -351,7 +365,7 @@ Section OneAttempt.
     destruct (stored0 =? 0)%N eqn:E1; destruct (static =? 0)%N eqn:E2; cbn; try reflexivity.
   Qed.
 
-  Definition W (h : hpc) := mkW g0 stored0 h.
+  Definition W (h : hpc) := mkW g0 stored0 cfg h.
   Definition wset (p : hpc) (s1 : st) := set_workers (W p :: ws0) s1.
 
   Lemma hs_preserves s h rest l s1 p :
@@ -367,7 +381,10 @@ Section OneAttempt.
     - (* HHello *)
       inv_some Hst. rewrite Hcn, Hb. cbn [wrote_hello]. unfold cn. rewrite Hb0. fold cn.
       destruct (Hearly eq_refl) as [Hnn Hr].
-      constructor; t2 Hearly.
+      unfold hello_pres. cbn [w_rs w_att w_cfg].
+      assert (Hhe : hello_entry = if (stored0 =? 0)%N then [] else [(cn, 1%N, cfg)]) by reflexivity.
+      destruct (stored0 =? 0)%N eqn:Es0;
+        (constructor; t2 Hearly; try (rewrite Hpres, Hhe, ?Hcn, ?app_nil_r; reflexivity)).
     - (* HGet *)
       destruct (inq s) as [|x q] eqn:Eq; [discriminate|].
       pose proof (Hnod eq_refl) as Hd. cbn in Hacct. rewrite Hd in Hacct. cbn in Hacct.
@@ -377,12 +394,15 @@ Section OneAttempt.
       { intros f Hf. pose proof (Hntfl _ Hf) as C. rewrite Hps in C. discriminate. }
       pose proof data_nil_of_fail as Hdnf.
       destruct auth_ok eqn:Eok.
-      + destruct (negb (static =? 0)%N || (stored0 =? 0)%N); inv_some Hst; constructor; t2 Hearly;
-          try (unfold delivered in *; rewrite Hd, Hdata; reflexivity); try (intros f Hf; exfalso; eapply Hnfl; eassumption).
+      + destruct (negb (static =? 0)%N || (stored0 =? 0)%N) eqn:Efin; inv_some Hst; constructor; t2 Hearly;
+          try (unfold delivered in *; rewrite Hd, Hdata; reflexivity); try (intros f Hf; exfalso; eapply Hnfl; eassumption);
+          try (intros; exact Efin); try (unfold finish_entry, fin; rewrite Efin; assumption).
       + inv_some Hst. pose proof (Hdnf eq_refl) as Hdn. rewrite Hdn in Hdata.
         symmetry in Hdata. apply app_eq_nil in Hdata. destruct Hdata as [-> ->].
         constructor; t2 Hearly; try (unfold delivered in *; rewrite Hd, Hdn; reflexivity); try (intros f Hf; exfalso; eapply Hnfl; eassumption).
-    - (* HFinish *) inv_some Hst. constructor; t2 Hearly.
+    - (* HFinish *) inv_some Hst. pose proof (Hfin _ eq_refl) as Hf1.
+      constructor; t2 Hearly.
+      unfold finish_entry. rewrite Hf1, Hpres, Hcn, app_nil_r, <- app_assoc. reflexivity.
     - (* HSetT *)
       rewrite Hps in Hst. cbn in Hst. pose proof (Hcar _ eq_refl) as ->.
       destruct Hrs as [Hst0 Hl]. cbn in Hst0, Hl. rewrite Hl in Hst.
@@ -454,10 +474,10 @@ Section OneAttempt.
 
   Lemma inv_step s tid l s' : Inv s -> step s tid = Some (l, s') -> Inv s'.
   Proof.
-    intros [n scr l0 c Hs Hc | h rest HI] Hst.
+    intros [n scr l0 c pc Hs Hc | h rest HI] Hst.
     - subst s. unfold step in Hst. destruct (tid =? 0)%N eqn:Et.
       + unfold nt_step in Hst. cbn [npc_ script edge ps] in Hst.
-        destruct Hc as [(-> & -> & -> & ->) | [([-> | ->] & -> & -> & ->) | ([-> | ->] & -> & -> & ->)]].
+        destruct Hc as [(-> & -> & -> & -> & ->) | [([-> | ->] & -> & -> & -> & ->) | ([-> | ->] & -> & -> & -> & ->)]].
         * match type of Hst with (if _ then ?x else ?y) = _ => destruct (if_cases e x y) as [R|R]; rewrite R in Hst end;
             inv_some Hst; (eapply Inv_pre; [reflexivity|]); cbn; fold cn.
           -- right. left. auto.
@@ -467,7 +487,7 @@ Section OneAttempt.
         * assert (Hh : is_hs p0 = false) by (destruct p0; try reflexivity; congruence).
           rewrite Hh in Hst. inv_some Hst. eapply Inv_pre; [reflexivity|]. cbn. right. right. auto.
         * inv_some Hst. eapply Inv_run with (h := HReset) (rest := hello :: data).
-          constructor; cbn; auto; try discriminate; try reflexivity.
+          constructor; cbn; auto; try discriminate; try reflexivity. rewrite app_nil_r. reflexivity.
       + cbn [workers] in Hst. destruct (find_w (tid - 1) ws0) eqn:Ef; [|discriminate].
         rewrite (old_no_step _ _ _ _ Hws Ef) in Hst. discriminate.
     - destruct (tid =? 0)%N eqn:Et.
@@ -498,12 +518,12 @@ Section OneAttempt.
     destruct Hlive as [C|C]; [discriminate | subst h; discriminate | discriminate].
   Qed.
 
-  Lemma pre_not_done s n scr l c :
-    s = mkSt p0 [] None c0 stored0 l n scr ws0 g0 [] e c b0 ->
-    (n = NNext /\ scr = NAuth :: tail /\ l = lrs0 /\ c = cn0) \/
-    ((n = NAuthE2 \/ n = NAuthH) /\ scr = tail /\ l = lrs0 /\ c = cn) \/
-    ((n = NAuthChk \/ n = NSpawn) /\ scr = tail /\ l = stored0 /\ c = cn) ->
-    all_done s = false /\ log s = [].
+  Lemma pre_not_done s n scr l c pc :
+    s = mkSt p0 [] None c0 stored0 l n scr ws0 g0 [] e c b0 pc pres0 ->
+    (n = NNext /\ scr = NAuth cfg :: tail /\ l = lrs0 /\ c = cn0 /\ pc = pc0) \/
+    ((n = NAuthE2 \/ n = NAuthH) /\ scr = tail /\ l = lrs0 /\ c = cn /\ pc = cfg) \/
+    ((n = NAuthChk \/ n = NSpawn) /\ scr = tail /\ l = stored0 /\ c = cn /\ pc = cfg) ->
+    all_done s = false /\ log s = [] /\ pres s = pres0.
   Proof.
     intros -> Hc. unfold all_done, nt_finished. cbn.
     destruct Hc as [(-> & -> & _) | [([-> | ->] & -> & _) | ([-> | ->] & -> & _)]]; cbn; auto.
@@ -514,8 +534,8 @@ Section OneAttempt.
     ups (log s) = number 0 (delivered s) /\
     (all_done s = true -> ups (log s) = number 0 data).
   Proof.
-    intros s Hr. destruct (inv_reach _ Hr) as [n scr l c Hs Hc | h rest HI].
-    - destruct (pre_not_done _ _ _ _ _ Hs Hc) as [Hnd Hl]. unfold delivered. rewrite Hl, Hnd. cbn.
+    intros s Hr. destruct (inv_reach _ Hr) as [n scr l c pc Hs Hc | h rest HI].
+    - destruct (pre_not_done _ _ _ _ _ _ Hs Hc) as (Hnd & Hl & Hpr0). unfold delivered. rewrite Hl, Hnd. cbn.
       repeat split; [exists data; reflexivity | discriminate].
     - pose proof HI as HI0. fields HI. split; [|split; [assumption|]].
       + destruct h; cbn in Hacct;
@@ -600,7 +620,7 @@ Section OneAttempt.
 
   Theorem no_deadlock_thm : forall s, reach S0 s -> stuck s = false.
   Proof.
-    intros s Hr. destruct (inv_reach _ Hr) as [n scr l c Hs Hc | h rest HI].
+    intros s Hr. destruct (inv_reach _ Hr) as [n scr l c pc Hs Hc | h rest HI].
     - apply enabled_not_stuck with (t := 0%N); [left; reflexivity|].
       subst s. unfold enabled, step. cbn. unfold nt_step. cbn.
       destruct Hc as [(-> & -> & _) | [([-> | ->] & -> & _) | ([-> | ->] & -> & _)]]; cbn; try reflexivity.
@@ -618,8 +638,8 @@ Section OneAttempt.
        failures (log s) = [EEvent; EFailure] /\ ups (log s) = [] /\ persists (log s) = []) /\
     (auth_ok = true -> failures (log s) = []).
   Proof.
-    intros s Hr. destruct (inv_reach _ Hr) as [n scr l c Hs Hc | h rest HI].
-    - destruct (pre_not_done _ _ _ _ _ Hs Hc) as [Hnd Hl]. rewrite Hl, Hnd. split; [discriminate | reflexivity].
+    intros s Hr. destruct (inv_reach _ Hr) as [n scr l c pc Hs Hc | h rest HI].
+    - destruct (pre_not_done _ _ _ _ _ _ Hs Hc) as (Hnd & Hl & Hpr0). rewrite Hl, Hnd. split; [discriminate | reflexivity].
     - pose proof HI as HI0. fields HI. split.
       + intros Hno Hd. destruct (done_facts _ _ _ HI0 Hd) as (-> & -> & _ & Hq).
         cbn in Hfl, Hper, Hacct. rewrite Hno in Hfl, Hper. cbn in Hper.
@@ -636,8 +656,8 @@ Section OneAttempt.
     (all_done s = true -> auth_ok = true ->
        persists (log s) = (if (stored0 =? nrs)%N then [] else [nrs]) /\ stored s = nrs).
   Proof.
-    intros s Hr. destruct (inv_reach _ Hr) as [n scr l c Hs Hc | h rest HI].
-    - destruct (pre_not_done _ _ _ _ _ Hs Hc) as [Hnd Hl]. rewrite Hl, Hnd. split; [left; reflexivity | discriminate].
+    intros s Hr. destruct (inv_reach _ Hr) as [n scr l c pc Hs Hc | h rest HI].
+    - destruct (pre_not_done _ _ _ _ _ _ Hs Hc) as (Hnd & Hl & Hpr0). rewrite Hl, Hnd. split; [left; reflexivity | discriminate].
     - pose proof HI as HI0. fields HI. destruct Hrs as [Hrs _]. unfold changed in *. split.
       + rewrite Hper, Hrs. destruct (after_persist h); cbn; [|left; reflexivity].
         destruct (stored0 =? nrs)%N eqn:Ec; cbn; [left; reflexivity|].
@@ -648,14 +668,68 @@ Section OneAttempt.
         apply N.eqb_eq. assumption.
   Qed.
 
+  (* ---- what is presented to the server *)
+  Lemma in_pres_of h x : In x (pres_of h) -> x = (cn, 1%N, cfg) \/ x = (cn, 2%N, cfg).
+  Proof.
+    unfold pres_of, hello_entry, finish_entry. rewrite in_app_iff.
+    destruct (wrote_hello h), (after_finish h), (stored0 =? 0)%N, fin; cbn; intuition.
+  Qed.
+
+  Lemma presented_ok_nonempty : presented_ok <> [].
+  Proof.
+    unfold presented_ok, hello_entry, finish_entry, fin.
+    destruct (stored0 =? 0)%N; [rewrite orb_true_r|]; discriminate.
+  Qed.
+
+  (* Every payload-bearing handshake message written during this attempt goes out on this attempt's
+     connection and carries exactly the configuration of THIS auth event, whatever earlier attempts
+     (ws0, pc0, pres0) presented; after a successful login the server has received it (IK: in the
+     client hello; XX / XXfallback: in the client finish). *)
+  Theorem presented_thm : forall s, reach S0 s ->
+    (exists tl, pres s = pres0 ++ tl /\ forall x, In x tl -> x = (cn, 1%N, cfg) \/ x = (cn, 2%N, cfg)) /\
+    (all_done s = true -> auth_ok = true -> pres s = pres0 ++ presented_ok /\ presented_ok <> []) /\
+    (all_done s = true -> auth_ok = false -> pres s = pres0 ++ hello_entry).
+  Proof.
+    intros s Hr. destruct (inv_reach _ Hr) as [n scr l c pc Hs Hc | h rest HI].
+    - destruct (pre_not_done _ _ _ _ _ _ Hs Hc) as (Hnd & Hl & Hpr0). rewrite Hnd. split; [|split; discriminate].
+      exists []. rewrite app_nil_r. split; [assumption | intros x []].
+    - pose proof HI as HI0. fields HI. split; [|split].
+      + exists (pres_of h). split; [assumption | apply in_pres_of].
+      + intros Hd Hyes. destruct (done_facts _ _ _ HI0 Hd) as (-> & _).
+        split; [|apply presented_ok_nonempty]. rewrite Hpres. unfold pres_of, presented_ok. cbn. rewrite Hyes. reflexivity.
+      + intros Hd Hno. destruct (done_facts _ _ _ HI0 Hd) as (-> & _).
+        rewrite Hpres. unfold pres_of. cbn. rewrite Hno, app_nil_r. reflexivity.
+  Qed.
+
+  (* the state a completed attempt leaves behind (used to chain logins, C04ProofsHist.v) *)
+  Lemma done_state s : reach S0 s -> all_done s = true ->
+    workers s = mkW g0 stored0 cfg HDone :: ws0 /\ gen s = (g0 + 1)%N /\ conn s = cn /\ edge s = e /\
+    bound s = (cn, g0) :: b0 /\ ps s = (if auth_ok then PTr else PErr) /\ inq s = [] /\ lock s = None /\
+    npc_ s = NNext /\ script s = [] /\ stored s = (if auth_ok then nrs else stored0) /\
+    pres s = pres0 ++ (if auth_ok then presented_ok else hello_entry).
+  Proof.
+    intros Hr Hd. destruct (inv_reach _ Hr) as [n scr l c pc Hs Hc | h rest HI].
+    - destruct (pre_not_done _ _ _ _ _ _ Hs Hc) as (Hnd & _). congruence.
+    - pose proof HI as HI0. destruct (done_facts _ _ _ HI0 Hd) as (-> & -> & Hnn & Hq). fields HI.
+      repeat split; try assumption.
+      + rewrite Hlk, Hnn. reflexivity.
+      + destruct Hrs as [Hs1 _]. rewrite Hs1. cbn. unfold changed. rewrite orb_false_r.
+        destruct auth_ok; cbn; [|reflexivity].
+        destruct (stored0 =? nrs)%N eqn:Ec; cbn; [apply N.eqb_eq in Ec; assumption | reflexivity].
+      + rewrite Hpres. unfold pres_of, presented_ok. cbn. destruct auth_ok; [reflexivity | rewrite app_nil_r; reflexivity].
+  Qed.
+
 End OneAttempt.
 
 (* ------------------------------------------------------------------ non-vacuity and witnesses *)
 
 (* a concrete scenario satisfying every hypothesis: reconnect on a layer left in transport state by an
    earlier, terminated attempt; XXfallback (stored key 5, server answers with key 7); three frames *)
-Definition ex_ws := [mkW 0 0 HDone].
-Definition ex_S0 := S0 PTr 4 5 5 1 ex_ws true 1 [(1, 0)]%N 100 true 7 [1; 2; 3]%N.
+(* two configurations of the same account that differ in the passive flag (and one attribute) *)
+Definition cfgA := mkCfg 4915112345678 true [11; 262; 2; 0]%N.
+Definition cfgB := mkCfg 4915112345678 false [12; 262; 2; 0]%N.
+Definition ex_ws := [mkW 0 0 cfgA HDone].
+Definition ex_S0 := S0 PTr 4 5 5 1 ex_ws true 1 [(1, 0)]%N cfgA [(1, 2, cfgA)]%N cfgB 100 true 7 [1; 2; 3]%N.
 Definition ex_sched : list N :=
   [0;0;0;0;0; 2;2;2; 0; 2;2;2;2;2;2;2; 0;0;0;0;0;0;0;0;0;0;0;0;0;0;0;0;0;0;0;0;0;0;0;0;0;0;0;0]%N.
 
@@ -669,7 +743,8 @@ Qed.
 
 Example nonvacuous_run :
   match run ex_S0 ex_sched with
-  | Some s => all_done s = true /\ ups (log s) = number 0 (map SData [1; 2; 3]%N) /\ persists (log s) = [7%N]
+  | Some s => all_done s = true /\ ups (log s) = number 0 (map SData [1; 2; 3]%N) /\ persists (log s) = [7%N] /\
+              pres s = [(1, 2, cfgA); (2, 1, cfgB); (2, 2, cfgB)]%N
   | None => False
   end.
 Proof. vm_compute. repeat split. Qed.
@@ -677,7 +752,7 @@ Proof. vm_compute. repeat split. Qed.
 (* The design's stronger reading "the profile write happens before ANY frame is delivered" is false of
    the code: the protocol state is set to transport before _on_protocol_state_changed runs, so the
    network thread can flush in between. *)
-Definition pb_S0 := S0 PInit 0 0 0 0 [] false 0 [] 100 true 7 [1]%N.
+Definition pb_S0 := S0 PInit 0 0 0 0 [] false 0 [] cfgA [] cfgA 100 true 7 [1]%N.
 Definition pb_sched : list N := [0;0;0; 1;1;1; 0;0; 1;1;1; 0;0; 0;0;0;0;0;0; 1]%N.
 Lemma persist_before_frames_refuted :
   exists s, run pb_S0 pb_sched = Some s /\ log s = [EUp 0 (SData 1); EPersist 7].
@@ -687,14 +762,14 @@ Proof. eexists. split; vm_compute; reflexivity. Qed.
    waiting on the shared queue.  Schedule: attempt 0 up to its blocking get; disconnect; attempt 1 up
    to its blocking get; server hello of connection 2 arrives; the STALE worker (tid 1) dequeues it. *)
 Definition rc_S0 : st :=
-  mkSt PInit [] None 0 0 0 NNext [NAuth; NDisc; NAuth; NSeg (SHello 102 2 true 7)] [] 0 [] false 0 [].
+  mkSt PInit [] None 0 0 0 NNext [NAuth cfgA; NDisc; NAuth cfgB; NSeg (SHello 102 2 true 7)] [] 0 [] false 0 [] cfgA [].
 Definition rc_sched : list N := [0;0;0; 1;1;1; 0; 0;0;0; 2;2;2; 0;0; 1;1;1;1]%N.
 
 Lemma reconnect_fresh_refuted :
   exists s, run rc_S0 rc_sched = Some s /\
             failures (log s) = [EEvent; EFailure] /\       (* login failure reported although the server answered correctly *)
             stuck s = true /\                               (* and nobody can move any more ... *)
-            find_w 1 (workers s) = Some (mkW 1 0 HGet) /\   (* ... with the new attempt's worker waiting forever *)
+            find_w 1 (workers s) = Some (mkW 1 0 cfgB HGet) /\   (* ... with the new attempt's worker waiting forever *)
             ps s = PErr.
 Proof. eexists. split; [vm_compute; reflexivity|]. vm_compute. repeat split. Qed.
 
@@ -703,7 +778,7 @@ Proof. eexists. split; [vm_compute; reflexivity|]. vm_compute. repeat split. Qed
 Definition rc_sched2 : list N := [0;0;0; 1;1;1; 0; 0;0;0; 2;2;2; 0;0; 2;2;2;2;2;2;2]%N.
 Lemma reconnect_stale_waiter_refuted :
   exists s, run rc_S0 rc_sched2 = Some s /\ ps s = PTr /\ stuck s = true /\
-            find_w 0 (workers s) = Some (mkW 0 0 HGet).
+            find_w 0 (workers s) = Some (mkW 0 0 cfgA HGet).
 Proof. eexists. split; [vm_compute; reflexivity|]. vm_compute. repeat split. Qed.
 
 Lemma run_reach : forall sched s s', run s sched = Some s' -> reach s s'.
@@ -719,20 +794,20 @@ Qed.
 (* Reconnect, positive part: a layer whose earlier attempts' workers have all terminated (whatever
    state, counter, stored key, connection history they left behind) logs in like a fresh one. *)
 Theorem reconnect_fresh_partial_thm :
-  forall p0 c0 stored0 lrs0 g0 ws0 e cn0 b0 hsid ok static dsids,
+  forall p0 c0 stored0 lrs0 g0 ws0 e cn0 b0 pc0 pres0 cfg hsid ok static dsids,
     p0 <> PHs -> Forall (old_ok g0) ws0 -> lookup (cn0 + 1) b0 = None ->
     auth_ok stored0 ok static = true ->
-    forall s, reach (S0 p0 c0 stored0 lrs0 g0 ws0 e cn0 b0 hsid ok static dsids) s ->
+    forall s, reach (S0 p0 c0 stored0 lrs0 g0 ws0 e cn0 b0 pc0 pres0 cfg hsid ok static dsids) s ->
       stuck s = false /\ failures (log s) = [] /\
       (all_done s = true -> ups (log s) = number 0 (data dsids) /\ stored s = nrs stored0 static).
 Proof.
-  intros p0 c0 stored0 lrs0 g0 ws0 e cn0 b0 hsid ok static dsids H1 H2 H3 Hok s Hr.
+  intros p0 c0 stored0 lrs0 g0 ws0 e cn0 b0 pc0 pres0 cfg hsid ok static dsids H1 H2 H3 Hok s Hr.
   assert (Hf : auth_ok stored0 ok static = false -> dsids = []) by (intros C; congruence).
   split; [eapply no_deadlock_thm; eassumption|].
-  split; [eapply (proj2 (failure_reported_thm _ _ _ _ _ _ _ _ _ _ _ _ _ H1 H2 H3 Hf s Hr)); assumption|].
+  split; [eapply (proj2 (failure_reported_thm _ _ _ _ _ _ _ _ _ _ _ _ _ _ _ _ H1 H2 H3 Hf s Hr)); assumption|].
   intros Hd. split.
-  - eapply (proj2 (proj2 (in_order_once_thm _ _ _ _ _ _ _ _ _ _ _ _ _ H1 H2 H3 Hf s Hr))); assumption.
-  - eapply (proj2 (rs_persisted_thm _ _ _ _ _ _ _ _ _ _ _ _ _ H1 H2 H3 Hf s Hr)); assumption.
+  - eapply (proj2 (proj2 (in_order_once_thm _ _ _ _ _ _ _ _ _ _ _ _ _ _ _ _ H1 H2 H3 Hf s Hr))); assumption.
+  - eapply (proj2 (rs_persisted_thm _ _ _ _ _ _ _ _ _ _ _ _ _ _ _ _ H1 H2 H3 Hf s Hr)); assumption.
 Qed.
 
 Example nonvacuous_reach :
